@@ -180,6 +180,7 @@ func (p *GoProg) applyOrient() {
 			return true
 		})
 		p.negationNormalForm(fd)
+		p.splitNewCompoundConds(name, fd)
 		p.normalForms(fd)
 	}
 }
